@@ -119,6 +119,20 @@ CHECKS = {
          "Trusted: pyprops/ref_msp430.py (280 lines, from the family user's guide incl. cycle tables 3-14..3-16). Combinations "
          "the guide leaves undefined are skipped and counted in the evidence classes (skipped_undefined.*).",
          "DESIGN.md 3/C14"),
+ "C15": ("hypothesis+nvserve",
+         "seeded exhaustive enumeration of opcode patterns x generated register/memory states per simulator; oracles: clean return under sanitizers, address-space confinement, run-twice determinism",
+         "Generated-input search with invariant and metamorphic (run twice, different order) oracles: for each of the 15 "
+         "simulators every leading opcode pattern (8-bit ISAs: all first bytes and all prefixed second bytes, many states "
+         "each; 16/32-bit ISAs: quick every 16th, thorough all 65,536 leading half words, both halves for 32-bit words) is "
+         "combined with zero/0xff/keyed-random memory, boundary register values set through set_reg, SP at the edges and "
+         "PC at 0/mid/top of the address space; one `step` on a fresh simulator in the sanitized harness (forked batches: "
+         "a crash or hang is attributed to its case). The step must return, leave no page or changed byte outside the "
+         "simulated address space, and a second execution of the same case after different predecessors in the same "
+         "process must give the identical return value, registers, dump_registers text and memory diff.",
+         "Register values are masked to the architectural width before set_reg; address-space sizes per CPU are listed in "
+         "pyprops/c15.py (CFG). The disassembler-length clause holds by construction for 6502/65816 (run() adds "
+         "disasm_6502's return value) and is not checked separately.",
+         "DESIGN.md 3/C15"),
  "C18": ("hypothesis+nvserve",
          "Hypothesis structured programs; generic .lst parser checked against the hex output and an own disassembly of the output image",
          "Generated-input search: structured programs (multi-word instructions, data between code, .org segments, "
